@@ -1,142 +1,59 @@
 /-
   C03 — the grammar front-end accepts the documented syntax and builds the denoted AST.
 
-  The universal round trip over all ASTs and layouts is decided by execution (harness/cmd/pvfront:
-  generated ASTs printed in random spellings, parsed by the real front-end through the verif hook,
-  compared node by node incl. positions). Kernel-checked here: the second phase of
-  `CharClassMatcher.parse` (ast.go: "extract ranges and chars"), which turns the decoded rune
-  sequence of a class into single characters and ranges, inverts the printer for every class whose
-  single characters contain no `-` and whose ranges do not start with `-`.
+  What of C03 is a theorem, and about which code:
+
+  * `Model/ClassParse.lean` is a model of `(*ast.CharClassMatcher).parse` (ast/ast.go), the function that turns the text of
+    a character class into the descriptor every later stage uses (flags, characters, ranges, Unicode class names): one Lean
+    function per phase, byte-faithful (UTF-8 decoding as `strings.Reader.ReadRune`, `strconv.UnquoteChar` with its error
+    cases). It is tied to the code by execution: `harness/cmd/pvclass` runs the real `ast.NewCharClassMatcher` and
+    `pvdriver` the model on the same generated class texts (every escape form, ranges and dashes in every position, `\p`
+    classes, `^`, `i`, stray bytes, truncations) and the descriptors are compared field by field on every run.
+  * `C03_class_parse_roundtrip` (proof in `Proofs/ClassRoundTrip.lean`): PRINTING A CLASS BACK TO TEXT AND RE-PARSING YIELDS
+    THE SAME CLASS, for every descriptor - any number of characters, ranges and class names, both flags - under the
+    hypothesis the code forces (no single `-`, no range starting with `-`: finding D3, `C03_D3_escaped_dash_is_an_operator`).
+  * `C03_class_roundtrip_partial` (C03Base.lean): the same for the extraction phase alone, on decoded runes.
+
+  The universal round trip over all ASTs and layouts is decided by execution (`harness/cmd/pvfront`: generated ASTs printed
+  in random spellings, parsed by the real front-end through the verif hook, compared node by node incl. positions), and the
+  acceptance / diagnostics of the real tool are predicted by the runtime model run on the regenerated tables of
+  `grammar/pigeon.peg` (`pv/front_model.py`).
 -/
+import PigeonVerif.Proofs.ClassRoundTrip
+
 namespace PV
 namespace ClassParse
 
-abbrev Rune := Nat
-def dash : Rune := 45
+/-- **C03 — class round trip, whole function.** For every class descriptor - ignore-case flag, inverted flag, any list of
+    Unicode class names, of single characters and of ranges - whose characters and range bounds are valid code points,
+    whose single characters are not `-`, whose ranges do not start with `-`, and whose class names are ASCII without `}`:
+    the model of `(*ast.CharClassMatcher).parse` reads the canonical spelling `spell` (every code point as `\UXXXXXXXX`)
+    back as exactly that descriptor. -/
+theorem C03_class_parse_roundtrip (ic inv : Bool) (ns : List (List Rune)) (cs : List Rune) (rs : List (Rune × Rune))
+    (hn : ∀ n ∈ ns, NameOK n) (hc : ∀ c ∈ cs, validRune c = true ∧ c ≠ dash)
+    (hr : ∀ p ∈ rs, validRune p.1 = true ∧ validRune p.2 = true ∧ p.1 ≠ dash) :
+    parse (spell ic inv ns cs rs) =
+      some { ignoreCase := ic, inverted := inv, chars := cs, ranges := flat rs, classes := ns } :=
+  parse_spell ic inv ns cs rs hn hc hr
 
-/-- loop state of the extraction: `Chars`, `Ranges` (flat), `inRange`, `wasRange` -/
-structure St where
-  chars : List Rune
-  ranges : List Rune
-  inRange : Bool
-  wasRange : Bool
-deriving Repr, DecidableEq
+/-- the hypothesis on `-` cannot be dropped (finding D3): the class `a`, `-`, `c` - three single characters - spelled with
+    every character escaped is read back as the RANGE a-c; the escaping is lost before the range operator is looked for -/
+theorem C03_D3_escaped_dash_is_an_operator :
+    parse (spell false false [] [97, 45, 99] []) =
+      some { ignoreCase := false, inverted := false, chars := [], ranges := [97, 99], classes := [] } := by
+  decide
 
-/-- one iteration of `for i, r := range chars`; `last` = (i == len(chars)-1) -/
-def step (s : St) (r : Rune) (last : Bool) : St :=
-  if s.inRange then { s with ranges := s.ranges ++ [r], inRange := false, wasRange := true }
-  else if r = dash && !s.wasRange && !s.chars.isEmpty && !last then
-    { chars := s.chars.dropLast, ranges := s.ranges ++ [s.chars.getLast?.getD 0], inRange := true, wasRange := false }
-  else { s with chars := s.chars ++ [r], wasRange := false }
+/-- a bracketed text is never rejected by `parse` (the slicing cannot go out of bounds on what the grammar hands over) -/
+theorem C03_class_parse_total_on_bracketed (ic inv : Bool) (body : List Nat)
+    (hhead : ∀ x rest, body = x :: rest → x = 92) :
+    (parse (91 :: ((if inv then [94] else []) ++ body ++ 93 :: (if ic then [105] else [])))).isSome = true := by
+  rw [parse_shape ic inv body hhead]; rfl
 
-def run (s : St) : List Rune → St
-  | [] => s
-  | [r] => step s r true
-  | r :: r' :: rest => run (step s r false) (r' :: rest)
-
-/-- the extraction as `parse` performs it -/
-def extract (decoded : List Rune) : List Rune × List Rune :=
-  let s := run { chars := [], ranges := [], inRange := false, wasRange := false } decoded
-  (s.chars, s.ranges)
-
-/-- the printer: single characters first, then each range as `lo - hi` -/
-def printRanges : List (Rune × Rune) → List Rune
-  | [] => []
-  | (lo, hi) :: rest => lo :: dash :: hi :: printRanges rest
-
-def flat : List (Rune × Rune) → List Rune
-  | [] => []
-  | (lo, hi) :: rest => lo :: hi :: flat rest
-
-theorem run_append_nonlast (s : St) (r : Rune) (rest : List Rune) (h : rest ≠ []) :
-    run s (r :: rest) = run (step s r false) rest := by
-  cases rest with
-  | nil => exact absurd rfl h
-  | cons r' rest' => rfl
-
-/-- single characters without `-` are all kept as characters -/
-theorem run_chars (cs : List Rune) (hcs : ∀ c ∈ cs, c ≠ dash) (s : St) (hin : s.inRange = false)
-    (tail : List Rune) (ht : tail ≠ []) :
-    run s (cs ++ tail) = run { s with chars := s.chars ++ cs, wasRange := if cs.isEmpty then s.wasRange else false } tail := by
-  induction cs generalizing s with
-  | nil => simp
-  | cons c cs ih =>
-    have hc : c ≠ dash := hcs c List.mem_cons_self
-    have hne : cs ++ tail ≠ [] := by simp [ht]
-    rw [List.cons_append, run_append_nonlast _ _ _ hne]
-    have hstep : step s c false = { s with chars := s.chars ++ [c], wasRange := false } := by
-      unfold step; simp [hin, hc]
-    rw [hstep]
-    have := ih (fun x hx => hcs x (List.mem_cons_of_mem _ hx)) { s with chars := s.chars ++ [c], wasRange := false } hin
-    rw [this]
-    cases cs <;> simp
-
-/-- a printed range is read back as a range, whatever its bounds, when the previous item was a
-    range or a character and the lower bound is not `-` -/
-theorem run_range (s : St) (lo hi : Rune) (rest : List Rune) (hin : s.inRange = false) (hlo : lo ≠ dash) :
-    run s (lo :: dash :: hi :: rest) =
-      run { chars := s.chars, ranges := s.ranges ++ [lo, hi], inRange := false, wasRange := true } rest := by
-  have h1 : step s lo false = { s with chars := s.chars ++ [lo], wasRange := false } := by
-    unfold step; simp [hin, hlo]
-  rw [run_append_nonlast _ _ _ (by simp), h1, run_append_nonlast _ _ _ (by simp)]
-  have h2 : step { s with chars := s.chars ++ [lo], wasRange := false } dash false =
-      { chars := s.chars, ranges := s.ranges ++ [lo], inRange := true, wasRange := false } := by
-    unfold step; simp [hin]
-  rw [h2]
-  cases rest with
-  | nil => simp [run, step]
-  | cons r rest => simp [run, step]
-
-theorem run_ranges (rs : List (Rune × Rune)) (hrs : ∀ p ∈ rs, p.1 ≠ dash) (s : St) (hin : s.inRange = false) :
-    run s (printRanges rs) =
-      { s with ranges := s.ranges ++ flat rs, wasRange := if rs.isEmpty then s.wasRange else true } := by
-  induction rs generalizing s with
-  | nil => simp [printRanges, flat, run]
-  | cons p rs ih =>
-    obtain ⟨lo, hi⟩ := p
-    simp only [printRanges]
-    rw [run_range s lo hi _ hin (hrs (lo, hi) List.mem_cons_self)]
-    rw [ih (fun q hq => hrs q (List.mem_cons_of_mem _ hq)) _ rfl]
-    cases rs <;> simp [flat, hin]
-
-/-- **C03 (class round trip)** for every list of single characters without `-` and every list
-    of ranges whose lower bounds are not `-` (upper bounds arbitrary), extracting from the printed
-    class gives back exactly those characters and ranges. (The unrestricted statement is false:
-    finding D3 — an escaped `-` between two characters is read as a range operator.) -/
-theorem C03_class_roundtrip_partial (cs : List Rune) (rs : List (Rune × Rune))
-    (hcs : ∀ c ∈ cs, c ≠ dash) (hrs : ∀ p ∈ rs, p.1 ≠ dash) :
-    extract (cs ++ printRanges rs) = (cs, flat rs) := by
-  unfold extract
-  cases rs with
-  | nil =>
-    simp only [printRanges, List.append_nil, flat]
-    -- only characters: no `-` at all, every rune is kept
-    have : ∀ (s : St), s.inRange = false → (run s cs).chars = s.chars ++ cs ∧ (run s cs).ranges = s.ranges := by
-      induction cs with
-      | nil => intro s _; simp [run]
-      | cons c cs ih =>
-        intro s hin
-        have hc : c ≠ dash := hcs c List.mem_cons_self
-        cases cs with
-        | nil => simp [run, step, hin, hc]
-        | cons c' cs' =>
-          have hstep : step s c false = { s with chars := s.chars ++ [c], wasRange := false } := by
-            unfold step; simp [hin, hc]
-          have := ih (fun x hx => hcs x (List.mem_cons_of_mem _ hx)) (step s c false) (by rw [hstep]; exact hin)
-          rw [run_append_nonlast _ _ _ (by simp)]
-          rw [hstep] at this ⊢
-          simpa using this
-    have h := this { chars := [], ranges := [], inRange := false, wasRange := false } rfl
-    simp at h
-    exact Prod.ext h.1 h.2
-  | cons p rs =>
-    have hne : printRanges (p :: rs) ≠ [] := by obtain ⟨lo, hi⟩ := p; simp [printRanges]
-    rw [run_chars cs hcs _ rfl _ hne, run_ranges (p :: rs) hrs _ rfl]
-    simp
-
-/-- D3 witness at this level: the decoded sequence `a - c` is a range even when the `-` was written
-    escaped (`[a\\x2dc]`): the extraction cannot tell, the information is lost in the decoding phase -/
-example : extract [97, 45, 99] = ([], [97, 99]) := by decide
+/-- octal escapes above `\377` and the escapes `\'` / `\"` silently become the character 0 (`strconv.UnquoteChar` reports an
+    error that `parse` ignores); the front-end grammar does not let `\'` / `\"` through, `\400`…`\777` it does -/
+theorem C03_big_octal_becomes_nul : parse [91, 92, 55, 55, 55, 93] =   -- the text `[\777]`
+    some { ignoreCase := false, inverted := false, chars := [0], ranges := [], classes := [] } := by
+  decide
 
 end ClassParse
 end PV
